@@ -975,17 +975,19 @@ func (em *emitter) emitUnaryOp(expr *ast.UnaryOperator, reg int8, regType reflec
 		case *ast.Selector:
 			// Address of a non-local variable.
 			if index, ok := em.varStore.nonLocalVarIndex(operand); ok {
-				if canEmitDirectly(operandKind, regType.Kind()) {
+				if canEmitDirectly(reflect.Pointer, regType.Kind()) {
 					em.fb.emitGetVarAddr(index, reg)
 					return
 				}
-				r := em.fb.newRegister(operandKind)
+				em.fb.enterStack()
+				r := em.fb.newRegister(reflect.Pointer)
 				em.fb.emitGetVarAddr(index, r)
-				em.changeRegister(false, r, reg, operandType, regType)
+				em.changeRegister(false, r, reg, em.types.PointerTo(operandType), regType)
+				em.fb.exitStack()
 				return
 			}
 			expr := operand.Expr
-			if op, ok := expr.(*ast.UnaryOperator); ok && op.Op == ast.OperatorPointer && em.typ(expr).Kind() == reflect.Struct {
+			if op, ok := expr.(*ast.UnaryOperator); ok && op.Op == ast.OperatorPointer && em.isStructIndirection(expr) {
 				expr = op.Expr
 			}
 			operandExprType := em.typ(expr)
